@@ -22,7 +22,8 @@ open Rigo Rigo.C15 Rigo.C10P
 
 /-! ### acceptance lemmas (any state) -/
 
-/-- the conditions under which `validateProposal` accepts, on either path -/
+/-- the conditions under which `validateProposal` accepts, on either path (`hsum`, `hlo`: the model computes the two
+    height sums in int64 as the Go code does; the sums of this proposal are int64 values / do not underflow) -/
 theorem validateProposal_accept {s : St} {e : Bool} {h : Int} {tx : TxIn}
     {msg : Hex} {start period applying optType : Int} {opts : List VoteOpt}
     (hpay : tx.payload = .proposal msg start period applying optType opts)
@@ -31,6 +32,7 @@ theorem validateProposal_accept {s : St} {e : Bool} {h : Int} {tx : TxIn}
     (hfresh : s.props.get e (ledgerKey tx.hash) = none)
     (hfut : start > h) (hmin : s.active.minVotingPeriodBlocks ≤ period) (hmax : period ≤ s.active.maxVotingPeriodBlocks)
     (hper : 0 ≤ period) (hlazy : applying ≥ start + period + s.active.lazyApplyingBlocks) (hend : start + period ≤ applying)
+    (hsum : I64 (start + period)) (hlo : -9223372036854775808 ≤ start + period + s.active.lazyApplyingBlocks)
     (hne : opts ≠ [])
     (hparse : optType = PROPOSAL_GOVPARAMS → ∀ o ∈ opts, o.parsedV.isSome = true ∧ o.parsedA.isSome = true) :
     validateProposal s e h tx = .ok s := by
@@ -46,6 +48,8 @@ theorem validateProposal_accept {s : St} {e : Bool} {h : Int} {tx : TxIn}
     obtain ⟨a, b⟩ := hparse h1 o ho
     cases hv : o.parsedV <;> cases ha : o.parsedA <;> simp [hv, ha] at a b h3
   rw [if_neg hp]
+  have hw := wrapInt64_le hlo
+  rw [wrapInt64_fit hsum]
   rw [if_neg (by omega), if_neg (by omega), if_neg (by cases opts <;> simp_all)]
 
 
@@ -125,7 +129,7 @@ theorem s3z_validator : s3z.isValidator txProp.from_ = true := by
 theorem s3z_accepts : validateProposal s3z true 3 txProp = .ok s3z :=
   validateProposal_accept (msg := "") (start := 4) (period := 1) (applying := 6) (optType := PROPOSAL_GOVPARAMS)
     (opts := [voA, voB]) rfl ⟨by decide, by simp [isZeroAddr, txProp, addrZ]⟩ s3z_validator (by decide) (by decide)
-    (by decide) (by decide) (by decide) (by decide) (by decide) (by simp)
+    (by decide) (by decide) (by decide) (by decide) (by decide) (by decide) (by decide) (by simp)
     (by intro _ o ho; simp at ho; rcases ho with rfl | rfl <;> exact ⟨rfl, rfl⟩)
 
 /-- DeliverTx of the proposal is answered with code 0 -/
@@ -153,7 +157,7 @@ theorem sProp_props :
   rw [h1]
   show (deliverTx s3 txProp).1.props = _
   rw [deliverTx_props s3_blk]
-  obtain ⟨msg, start, period, applying, optType, opts, acc, hprops⟩ := proposal_success (s := s3) (e := true) (h := 3) rfl txProp_code0
+  obtain ⟨msg, start, period, applying, optType, opts, acc, hprops⟩ := proposal_successW (s := s3) (e := true) (h := 3) rfl txProp_code0
   have hp := acc.payload
   have hp' : Payload.proposal "" 4 1 6 PROPOSAL_GOVPARAMS [voA, voB] = Payload.proposal msg start period applying optType opts := hp
   cases hp'
